@@ -222,7 +222,8 @@ func oracleMDNSWire(r *lib.Run, st mStep, msg []byte, replay string) {
 
 // ---- generator ----
 var mNames = []string{"myhost.local", "printer.local", "Test-iPad.local", "host.example.com", "_ipp._tcp.local", "_services._dns-sd._udp.local",
-	"sleep-proxy._udp.local", "my-sleep-proxy.local", "local", "", "x.local.lan", "a.local", "nas.home.local", "LOCAL.local", "b.Local"}
+	"sleep-proxy._udp.local", "my-sleep-proxy.local", "local", "", "x.local.lan", "a.local", "nas.home.local", "LOCAL.local", "b.Local",
+	"MyHost.local", "MYHOST.LOCAL", "myhost.Local", "Printer_2-x.local", "caf\xc3\xa9.local", "n\x00l.local"}
 
 func genMDNS(r *lib.Run, rng *lib.Rand) {
 	N := 1500
